@@ -72,6 +72,8 @@ pub struct SegReader {
     pos: usize,
     seg_end: usize,
     fail_at: Option<usize>,
+    /// start again from the first segment length when the list is exhausted (large inputs)
+    pub cycle: bool,
 }
 
 impl SegReader {
@@ -83,6 +85,7 @@ impl SegReader {
             pos: 0,
             seg_end: 0,
             fail_at,
+            cycle: false,
         }
     }
 }
@@ -107,6 +110,9 @@ impl BufRead for SegReader {
                     return Err(io::Error::new(io::ErrorKind::Other, "injected read fault"));
                 }
                 return Ok(&[]);
+            }
+            if self.cycle && !self.segs.is_empty() && self.seg_idx >= self.segs.len() {
+                self.seg_idx = 0;
             }
             let len = if self.seg_idx < self.segs.len() {
                 let l = self.segs[self.seg_idx];
@@ -359,6 +365,7 @@ fn run_cut(kv: &Kv) -> String {
     };
     let input = opt_bytes(kv, "in").unwrap_or_default();
     let mut reader = SegReader::new(input.clone(), parse_segs(kv), opt_usize(kv, "rf"));
+    reader.cycle = kv.get("cyc").is_some();
     let mut writer = FaultWriter {
         buf: Vec::new(),
         limit: opt_usize(kv, "wf"),
